@@ -85,7 +85,18 @@ func chainOf(fd *ast.FuncDecl) []string {
 		}
 		if lastIdent(call.Fun) == "ChainAnteDecorators" {
 			found++
-			for _, a := range call.Args {
+			args := call.Args
+			if call.Ellipsis.IsValid() && len(args) == 1 {
+				// `decorators := []sdk.AnteDecorator{…}; return sdk.ChainAnteDecorators(decorators...)`
+				if id, ok := args[0].(*ast.Ident); ok {
+					if cl := singleDefComposite(fd, id.Name); cl != nil {
+						args = cl.Elts
+					}
+				} else if cl, ok := args[0].(*ast.CompositeLit); ok {
+					args = cl.Elts
+				}
+			}
+			for _, a := range args {
 				out = append(out, decoratorName(a))
 			}
 			return false
@@ -96,6 +107,32 @@ func chainOf(fd *ast.FuncDecl) []string {
 		return []string{"?chains=" + strconv.Itoa(found)}
 	}
 	return out
+}
+
+// singleDefComposite: the composite literal a local is bound to, when the local is defined once and never
+// assigned or appended to again.
+func singleDefComposite(fd *ast.FuncDecl, name string) *ast.CompositeLit {
+	var lit *ast.CompositeLit
+	n := 0
+	ast.Inspect(fd.Body, func(x ast.Node) bool {
+		if as, ok := x.(*ast.AssignStmt); ok {
+			for i, l := range as.Lhs {
+				if id, ok := l.(*ast.Ident); ok && id.Name == name {
+					n++
+					if as.Tok == token.DEFINE && len(as.Lhs) == len(as.Rhs) {
+						if cl, ok := as.Rhs[i].(*ast.CompositeLit); ok {
+							lit = cl
+						}
+					}
+				}
+			}
+		}
+		return true
+	})
+	if n == 1 {
+		return lit
+	}
+	return nil
 }
 
 func coqStrList(xs []string) string {
@@ -219,6 +256,7 @@ func extSwitch(fd *ast.FuncDecl) extFacts {
 		}
 		return false
 	})
+	flLocals := singleDefLocals(fd)
 	ast.Inspect(fd.Body, func(n ast.Node) bool {
 		switch x := n.(type) {
 		case *ast.SwitchStmt:
@@ -229,6 +267,13 @@ func extSwitch(fd *ast.FuncDecl) extFacts {
 			}
 			if x.Tag != nil {
 				tag += "|" + Nospace(x.Tag)
+			}
+			if x.Tag != nil {
+				if id, ok := x.Tag.(*ast.Ident); ok {
+					if v, ok := flLocals[id.Name]; ok {
+						tag += "|" + v
+					}
+				}
 			}
 			if !strings.Contains(tag, "GetTypeUrl()") {
 				return true
@@ -583,6 +628,81 @@ func printCmp(name string, c cmpFacts) {
 		name, CoqString(c.operand), m, CoqString(c.bound), CoqBool(c.rejects), CoqBool(c.nilSafe))
 }
 
+// pkgValue: the initialiser of a package-level `const`/`var` name (single-name specs only).
+func pkgValue(files []File, name string) ast.Expr {
+	for _, fl := range files {
+		for _, d := range fl.F.Decls {
+			gd, ok := d.(*ast.GenDecl)
+			if !ok || (gd.Tok != token.CONST && gd.Tok != token.VAR) {
+				continue
+			}
+			for _, sp := range gd.Specs {
+				vs := sp.(*ast.ValueSpec)
+				for i, n := range vs.Names {
+					if n.Name == name && i < len(vs.Values) {
+						return vs.Values[i]
+					}
+				}
+			}
+		}
+	}
+	return nil
+}
+
+func evalInt(files []File, e ast.Expr, depth int) (int64, bool) {
+	switch x := e.(type) {
+	case *ast.BasicLit:
+		if x.Kind == token.INT {
+			v, err := strconv.ParseInt(strings.ReplaceAll(x.Value, "_", ""), 0, 64)
+			return v, err == nil
+		}
+	case *ast.Ident:
+		if depth < 3 {
+			if v := pkgValue(files, x.Name); v != nil {
+				return evalInt(files, v, depth+1)
+			}
+		}
+	case *ast.CallExpr: // int64(25)
+		if len(x.Args) == 1 && strings.HasPrefix(lastIdent(x.Fun), "int") {
+			return evalInt(files, x.Args[0], depth+1)
+		}
+	case *ast.ParenExpr:
+		return evalInt(files, x.X, depth)
+	}
+	return 0, false
+}
+
+// evalDec evaluates a constant LegacyDec expression to its raw integer (×10^18); "" when not understood.
+func evalDec(files []File, e ast.Expr, depth int) string {
+	switch x := e.(type) {
+	case *ast.CallExpr:
+		fn := lastIdent(x.Fun)
+		if strings.HasSuffix(fn, "NewDecFromStr") && len(x.Args) == 1 {
+			if bl, ok := x.Args[0].(*ast.BasicLit); ok && bl.Kind == token.STRING {
+				if s, err := strconv.Unquote(bl.Value); err == nil {
+					return decRaw(s)
+				}
+			}
+		}
+		if strings.HasSuffix(fn, "NewDecWithPrec") && len(x.Args) == 2 {
+			i, ok1 := evalInt(files, x.Args[0], 0)
+			pr, ok2 := evalInt(files, x.Args[1], 0)
+			if ok1 && ok2 && pr >= 0 && pr <= 18 && i >= 0 {
+				return strings.TrimLeft(strconv.FormatInt(i, 10)+strings.Repeat("0", int(18-pr)), "0")
+			}
+		}
+	case *ast.Ident:
+		if depth < 3 {
+			if v := pkgValue(files, x.Name); v != nil {
+				return evalDec(files, v, depth+1)
+			}
+		}
+	case *ast.ParenExpr:
+		return evalDec(files, x.X, depth)
+	}
+	return ""
+}
+
 // decRaw turns a decimal literal such as "0.25" into the raw LegacyDec integer (×10^18); "" if malformed.
 func decRaw(s string) string {
 	neg := strings.HasPrefix(s, "-")
@@ -699,10 +819,16 @@ func Emit(repo string) {
 	if fd := findFunc(anteFiles, "AnteHandle", "AnteDecoratorStakingCommission"); fd != nil {
 		for _, f := range helperClosure(anteFiles, fd) {
 			ast.Inspect(f.Body, func(n ast.Node) bool {
-				rs, ok := n.(*ast.RangeStmt)
-				if !ok {
+				var loopBody *ast.BlockStmt
+				switch l := n.(type) {
+				case *ast.RangeStmt:
+					loopBody = l.Body
+				case *ast.ForStmt:
+					loopBody = l.Body
+				default:
 					return true
 				}
+				rs := struct{ Body *ast.BlockStmt }{loopBody}
 				for i, st := range rs.Body.List {
 					ts, ok := st.(*ast.TypeSwitchStmt)
 					if !ok {
@@ -746,17 +872,12 @@ func Emit(repo string) {
 	fmt.Printf("Definition commission_scan : scan_facts := {| s_after_exec := %s; s_after_create := %s; s_after_edit := %s; s_after_other := %s; s_after_switch := %s |}.\n",
 		CoqBool(afterExec), CoqBool(afterCreate), CoqBool(afterEdit), CoqBool(afterOther), CoqBool(afterSwitch))
 
-	// MAX_COMMISSION: `func MAX_COMMISSION() sdk.Dec { return math.LegacyMustNewDecFromStr("0.25") }`
+	// MAX_COMMISSION: `func MAX_COMMISSION() sdk.Dec { return math.LegacyMustNewDecFromStr("0.25") }`, also
+	// NewDecWithPrec(i, prec) with integer literals / package-level constants, or a package-level var/const
 	raw := ""
 	if fd := findFunc(anteFiles, "MAX_COMMISSION", ""); fd != nil && len(fd.Body.List) == 1 {
 		if r, ok := fd.Body.List[0].(*ast.ReturnStmt); ok && len(r.Results) == 1 {
-			if c, ok := r.Results[0].(*ast.CallExpr); ok && len(c.Args) == 1 && strings.HasSuffix(lastIdent(c.Fun), "NewDecFromStr") {
-				if bl, ok := c.Args[0].(*ast.BasicLit); ok && bl.Kind == token.STRING {
-					if s, err := strconv.Unquote(bl.Value); err == nil {
-						raw = decRaw(s)
-					}
-				}
-			}
+			raw = evalDec(anteFiles, r.Results[0], 0)
 		}
 	}
 	if raw == "" {
@@ -777,21 +898,92 @@ func Emit(repo string) {
 			}
 			return true
 		})
-		for _, s := range wh.Body.List {
+		isEthType := func(e ast.Expr) bool { return strings.TrimPrefix(Nospace(e), "*") == "evm.MsgEthereumTx" }
+		locals := singleDefLocals(wh)
+		unfold := func(e ast.Expr) string {
+			t := Nospace(e)
+			if v, ok := locals[t]; ok {
+				return v
+			}
+			return t
+		}
+		isEthURL := func(e ast.Expr) bool {
+			t := unfold(e)
+			return t == "sdk.MsgTypeURL(new(evm.MsgEthereumTx))" || t == "sdk.MsgTypeURL(&evm.MsgEthereumTx{})"
+		}
+		// errVarChecked: the statement after index i is `if <name> != nil { return …err }`
+		errChecked := func(i int, name string) bool {
+			if i+1 >= len(wh.Body.List) {
+				return false
+			}
+			ifs, ok := wh.Body.List[i+1].(*ast.IfStmt)
+			return ok && ifs.Init == nil && Nospace(ifs.Cond) == name+"!=nil" && returnsError(ifs.Body)
+		}
+		// unconditional guard calls: `if err := CALL; err != nil { return }` or `err := CALL` + `if err != nil { return }`
+		guardCall := func(i int, st ast.Stmt) *ast.CallExpr {
+			switch x := st.(type) {
+			case *ast.IfStmt:
+				if as, ok := x.Init.(*ast.AssignStmt); ok && len(as.Rhs) == 1 && returnsError(x.Body) && strings.HasSuffix(Nospace(x.Cond), "!=nil") {
+					if c, ok := as.Rhs[0].(*ast.CallExpr); ok {
+						return c
+					}
+				}
+			case *ast.AssignStmt:
+				if len(x.Rhs) == 1 && len(x.Lhs) >= 1 {
+					if c, ok := x.Rhs[0].(*ast.CallExpr); ok {
+						if id, ok := x.Lhs[len(x.Lhs)-1].(*ast.Ident); ok && errChecked(i, id.Name) {
+							return c
+						}
+					}
+				}
+			}
+			return nil
+		}
+		for i, s := range wh.Body.List {
 			if routePos != 0 && s.Pos() >= routePos {
 				break
 			}
 			src := Nospace(s)
-			switch x := s.(type) {
-			case *ast.IfStmt:
-				if strings.Contains(src, "msg.ValidateBasic()") && returnsError(x.Body) {
+			if c := guardCall(i, s); c != nil {
+				cs := Nospace(c)
+				if cs == "msg.ValidateBasic()" {
 					vb = true
 				}
-				if strings.Contains(Nospace(x.Cond), "sdk.MsgTypeURL(new(evm.MsgEthereumTx))") && returnsError(x.Body) {
+				if strings.Contains(strings.ToLower(lastIdent(c.Fun)), "commission") && strings.Contains(cs, "msg") {
+					commission = true // applied to every dispatched message, whatever its type
+				}
+			}
+			switch x := s.(type) {
+			case *ast.IfStmt:
+				// `if typeURL == sdk.MsgTypeURL(new(evm.MsgEthereumTx)) { return err }` (either side, local unfolded)
+				if be, ok := x.Cond.(*ast.BinaryExpr); ok && be.Op == token.EQL && (isEthURL(be.X) || isEthURL(be.Y)) && returnsError(x.Body) {
 					refusesEth = true
 				}
-				if x.Init != nil && strings.Contains(strings.ToLower(Nospace(x.Init)), "commission") && strings.Contains(Nospace(x.Init), "msg") && returnsError(x.Body) {
-					commission = true
+				// `if _, ok := msg.(*evm.MsgEthereumTx); ok { return err }`
+				if as, ok := x.Init.(*ast.AssignStmt); ok && len(as.Rhs) == 1 {
+					if ta, ok := as.Rhs[0].(*ast.TypeAssertExpr); ok && ta.Type != nil && isEthType(ta.Type) && Nospace(ta.X) == "msg" && returnsError(x.Body) {
+						refusesEth = true
+					}
+				}
+			case *ast.TypeSwitchStmt:
+				// `switch msg.(type) { case *evm.MsgEthereumTx: return err … }`
+				for _, c := range x.Body.List {
+					cc := c.(*ast.CaseClause)
+					for _, e := range cc.List {
+						if isEthType(e) && len(cc.List) == 1 && firstStmtRejects(cc.Body) {
+							refusesEth = true
+						}
+					}
+				}
+			case *ast.SwitchStmt:
+				// `switch sdk.MsgTypeURL(msg) { case sdk.MsgTypeURL(&evm.MsgEthereumTx{}): return err }`
+				for _, c := range x.Body.List {
+					cc := c.(*ast.CaseClause)
+					for _, e := range cc.List {
+						if isEthURL(e) && len(cc.List) == 1 && firstStmtRejects(cc.Body) {
+							refusesEth = true
+						}
+					}
 				}
 			case *ast.RangeStmt:
 				if strings.Contains(Nospace(x.X), "msg.GetSigners()") && strings.Contains(src, ".Equals(contractAddr)") && returnsError(x.Body) {
